@@ -253,7 +253,7 @@ struct Kernel {
       else if (WIFEXITED(st) && WEXITSTATUS(st) == 78) { v.monitor = "terminate"; how = "std::terminate"; }
       else { v.monitor = "crash"; how = "exit" + std::to_string(WIFEXITED(st) ? WEXITSTATUS(st) : -1); }
       v.klass = plan.domain + "|" + sh->kind + "|" + (sh->fault[0] ? sh->fault : "-") + "|" + how
-        + (sh->in_branch ? "|branch" : "");
+        + (sh->in_branch ? "|branch" : "") + (sh->note[0] == '@' ? std::string("|") + (const char*) sh->note : std::string());
       v.detail = sanitize("op#" + std::to_string(sh->cur_op) + " " + sh->kind + " note=" + sh->note + " :: "
                           + (stderr_path.empty() ? "" : tail_of(stderr_path, 300)));
       rr.viols.push_back(v);
@@ -450,7 +450,8 @@ static int worker_main(Harness& hs, const BatchOpts& o, long w) {
         FILE* f = fopen(fp.c_str(), "w"); if (f) { fputs(plan.text().c_str(), f); fclose(f); }
         continue;
       }
-      Plan small = k.shrink(plan, cls, o.shrink_budget);
+      // a hang costs the whole wall-clock limit per re-execution: shrink those only a little
+      Plan small = k.shrink(plan, cls, v.monitor == "hang" ? std::min(o.shrink_budget, 12) : o.shrink_budget);
       RunResult fin = k.execute(small);
       std::string detail = v.detail;
       for (auto& fv : fin.viols) if (fv.cls() == cls) { detail = fv.detail; break; }
